@@ -186,6 +186,13 @@ def main(argv=None):
         except BaseException as e:   # noqa
             bounded = [dict(function=f'bounded.{pid.lower()}', error=f"{type(e).__name__}: {e}\n"
                             f"{traceback.format_exc()[-1500:]}", failures=[], cases=0, accepted=0, distinct=0)]
+    gm_rows, gm_errors = [], []
+    if tier == 'thorough' and os.environ.get('VERIF_SKIP_GM') != '1':
+        from pyvc import selftest
+        try:
+            gm_rows, gm_errors = selftest.run([c for c in proved_cs], seed, a.jobs)
+        except BaseException as e:     # noqa
+            gm_errors = [f"guard G-M crashed: {type(e).__name__}: {e}"]
     findings = load_findings()
     # contract-level known findings: replay the stored witness on the real function
     kf_lines = []
@@ -214,7 +221,7 @@ def main(argv=None):
     violations = []
     known = []
     undecided = []
-    errors = list(unlisted)
+    errors = list(unlisted) + list(gm_errors)
     n_ob = n_ok = 0
     solver_time = 0.0
     by_backend = {}
@@ -322,6 +329,15 @@ def main(argv=None):
                     "discharged by z3/cvc5; bounded rows execute the same clauses natively and are "
                     "never counted as discharged obligations",
         undecided=undecided, checker_errors=errors,
+        mutation_selftest=dict(
+            note="guard G-M (thorough tier): semantic mutations of the verified bodies in a scratch copy; "
+                 "killed = the verifier lost an obligation",
+            mutants=len(gm_rows),
+            killed=sum(1 for r in gm_rows if r['outcome'] == 'killed'),
+            survived=sum(1 for r in gm_rows if r['outcome'] == 'survived'),
+            not_analysable=sum(1 for r in gm_rows if r['outcome'] in ('not-analysable', 'error')),
+            survivors=[dict(function=r['function'], mutation=r['mutation']) for r in gm_rows
+                       if r['outcome'] == 'survived'][:40]) if gm_rows else None,
         known_findings_replayed=[k[0]['id'] for k in known],
     )
     ev = dict(property_id=pid, tier=tier, seed=seed, level=level, coverage=cov,
